@@ -1646,7 +1646,25 @@ fn oracle_tick(t: &mut Toks, _tier: Tier) -> Result<OracleOut, String> {
                         }),
                         _ => false,
                     });
-                    let shape = if dangling { ".deleted-node-keeps-edge-in-post-state" } else { "" };
+                    // Second shape of the same ordering defect (C04-K1b): an edge that touches the deleted node in
+                    // the PRE-state is re-pointed by an UpsertEdge of the same patch, but DeleteNode sorts first.
+                    let moved_off = patch.ops().iter().any(|op| match op {
+                        WarpOp::DeleteNode { node } => patch.ops().iter().any(|u| match u {
+                            WarpOp::UpsertEdge { warp_id, record } if *warp_id == node.warp_id => hook::stores(&c.state).iter().any(|(w, g)| {
+                                *w == node.warp_id
+                                    && g.iter_edges().flat_map(|(_, v)| v.iter()).any(|r| r.id == record.id && (r.from == node.local_id || r.to == node.local_id))
+                            }),
+                            _ => false,
+                        }),
+                        _ => false,
+                    });
+                    let shape = if dangling {
+                        ".deleted-node-keeps-edge-in-post-state"
+                    } else if moved_off {
+                        ".edge-moved-off-deleted-node"
+                    } else {
+                        ""
+                    };
                     o.fails.push((format!("C04.tick-replay-error:{}{shape}", err_class(&e)), format!("tick patch {} fails to apply to the pre-state", clip(&ops_str(patch.ops())))));
                 }
             }
